@@ -28,6 +28,11 @@ func main() {
 	if len(os.Args) < 2 {
 		usage()
 	}
+	// go/packages runs the go command found on PATH; the repository needs go >= 1.25.4
+	os.Setenv("PATH", "/opt/veriftools/go1.26.8/bin:"+os.Getenv("PATH"))
+	os.Setenv("GOTOOLCHAIN", "local")
+	os.Setenv("GOFLAGS", "-mod=mod")
+	os.Setenv("GOPROXY", "off")
 	if d := os.Getenv("VERIF_DIR"); d != "" {
 		verifDir = d
 	}
@@ -41,6 +46,11 @@ func main() {
 			usage()
 		}
 		os.Exit(cmdCheck(repo, os.Args[2], os.Args[3]))
+	case "replay":
+		if len(os.Args) < 3 {
+			usage()
+		}
+		os.Exit(cmdReplay(repo, os.Args[2]))
 	case "obls":
 		filter := ""
 		if len(os.Args) > 2 {
